@@ -36,7 +36,9 @@ what __init__ stores; bound methods, static methods and class attributes are
 values.  An input the documentation allows on which the code *fails*
 (TypeError, KeyError, IndexError, AttributeError, ... raised by an operation
 on plain values) is a violation like a refusal; a failure of an operation on
-a stand-in for a repository object is "cannot decide".  The rule groups run
+a stand-in for a repository object is "cannot decide".  A generator function that changes
+nothing but its own locals is run to its end at the call and hands out what it
+yields as a sequence (as generator expressions do).  The rule groups run
 independently: one group's analysis error does not keep another group's
 violation from being established.
 
@@ -56,7 +58,17 @@ R3  placeholders = parameters.  Symbolic count on the expanded view (see above) 
     method or property of the repository are counted in its return(s) (all agreeing; a list grown by unconditional
     append / extend counts its pieces; a comprehension counts the collection it iterates; astuple(x) the fields of
     x's class; a module-level table its rows; an integer parameter of a text helper - `placeholders(n)` - is the
-    count its caller passes, in whatever module the helper lives).  By evaluation: Filter.to_sql is run
+    count its caller passes, in whatever module the helper lives).  Condition builders are the Filter methods and the
+    module-level functions of the filter module reached from to_sql that return lists of pairs, and those returning
+    one pair (or None) whose result is put into a list of conditions; each must reach the list the WHERE text is
+    joined from - directly, through another function of the module that returns its result, or through another local
+    list that is added to / re-wrapped into that list.  Every numeric bound is carried by some pair (as the value or
+    as a one-element group) and min_<c> / max_<c> goes with `<c> >= ?` / `<c> <= ?`: a builder that receives value and
+    text as arguments is read once per call with the caller's arguments in the parameters' places.  The flatten step
+    may iterate each pair's parameters when every pair holds a list; when some pair holds the bare value it must wrap
+    first.  Query level: per block, the placeholders appended to _conditions = the parameters pushed onto _params; the
+    text and parameters Filter.to_sql returned (unpacked, read by index or by field) count as one matching group;
+    what cannot be followed is decided by R6.  By evaluation: Filter.to_sql is run
     by the checker's interpreter on a table of filters (every attribute alone with ordinary and zero values, single
     strings and lists, every region type in every position, legal mixes) and must return exactly the documented
     conditions, each with its own parameters in placeholder order (conjuncts compared as a multiset: AND commutes),
@@ -75,7 +87,9 @@ R6  by the same evaluation: one WHERE conjunct per condition with its own parame
     00:00 UTC, end date strictly before 00:00 UTC of the following day (the interpreter models the process's local
     zone as UTC+05:45, so a bound that depends on it shows), the sampling fraction, every n-th day counted from the
     start day or from the first day in the data, the filter's conditions; LIMIT / OFFSET after ORDER BY in that
-    order; legal boundary settings accepted, the documented illegal ones refused.
+    order; legal boundary settings accepted, the documented illegal ones refused.  A WHERE clause that differs is
+    reported (R4 and R6) as the documented conditions it lacks - named: start date, end date, sampling, every n-th
+    day, filter - and the conjuncts it has instead.
 R7  is-set tests of optional numerics (`int | None`, `float | None` fields of Filter and the query classes) are
     made against None itself, never by truthiness (expanded view; through locals and helper parameters).
     Bounding-box bounds reach the SQL parameters exactly as given, by evaluation: for each probe box (legal boxes:
@@ -987,10 +1001,21 @@ def _block_of(st):
     return p, None
 
 
-def _reaching_def(fn, use):
+def _reaching_def(fn, use, component=False):
     """the value of the one plain assignment `name = value` that reaches this load of a local, or None when some
-    other binding of the name may reach it"""
+    other binding of the name may reach it; component=True: (value, index) of the one unpacking `.., name, .. = value`
+    that reaches it"""
     name = use.id
+
+    def unpacked(prev):
+        if isinstance(prev, ast.Assign) and len(prev.targets) == 1 and isinstance(prev.targets[0], (ast.Tuple, ast.List)):
+            for i, t in enumerate(prev.targets[0].elts):
+                if isinstance(t, ast.Starred):
+                    return None
+                if isinstance(t, ast.Name) and t.id == name:
+                    return prev.value, i
+        return None
+
     for a in ancestors(use):
         if isinstance(a, _COMPS) and any(name in assigned_names(g.target) for g in a.generators):
             return None
@@ -1003,6 +1028,12 @@ def _reaching_def(fn, use):
             return None
         i = next(j for j, x in enumerate(blk) if x is st)
         for prev in reversed(blk[:i]):
+            if component:
+                if unpacked(prev) is not None:
+                    return unpacked(prev)
+                if local_defs(prev, name):
+                    return None
+                continue
             if isinstance(prev, ast.Assign) and len(prev.targets) == 1 and isinstance(prev.targets[0], ast.Name) \
                     and prev.targets[0].id == name:
                 return prev.value
@@ -1509,7 +1540,14 @@ class _Count:
 
 
 def _sink_of(t):
-    """how a tuple enters a list of conditions: ('push', <receiver>), ('bind', <name>), ('ret', None) or None"""
+    """how a tuple enters a list of conditions: ('push', <receiver>), ('bind', <name>), ('ret', None) or None;
+    ('ret1', None) when the tuple itself (or None instead of it) is what the function returns"""
+    p = getattr(t, '_parent', None)
+    x = t
+    while isinstance(p, ast.IfExp) and x is not p.test:
+        x, p = p, getattr(p, '_parent', None)
+    if isinstance(p, ast.Return):
+        return 'ret1', None
     p = getattr(t, '_parent', None)
     if isinstance(p, ast.Call) and isinstance(p.func, ast.Attribute) and p.func.attr in ('append', 'insert') \
             and p.args and p.args[-1] is t:
@@ -1538,8 +1576,9 @@ def _sink_of(t):
     return None
 
 
-def _pairs_into(view, lists=None):
-    """2-tuples that enter a list of conditions of this function: a returned list, or one of the named lists"""
+def _pairs_into(view, lists=None, single=False):
+    """2-tuples that enter a list of conditions of this function: a returned list, or one of the named lists;
+    single=True: the 2-tuples the function returns as such (a builder of one condition, or of None)"""
     if lists is None:
         lists = set()
         for r in walk_no_nested(view.node):
@@ -1549,7 +1588,7 @@ def _pairs_into(view, lists=None):
     for t in walk_no_nested(view.node):
         if isinstance(t, ast.Tuple) and len(t.elts) == 2 and isinstance(t.ctx, ast.Load):
             s = _sink_of(t)
-            if s is not None and (s[0] == 'ret' or s[1] in lists):
+            if s is not None and (s[0] == 'ret1') == single and (s[0] in ('ret', 'ret1') or s[1] in lists):
                 out.append(t)
     out.sort(key=lambda t: (t.lineno, t.col_offset))
     return out
@@ -1595,10 +1634,13 @@ class _Flatten:
     'listified' (seconds, each wrapped into a list unless it is one), 'flat' (seconds flattened in order),
     ('pair', a, b), ('join', sep, v), ('str', s), 'empty', ('bad', why), None (unknown)."""
 
-    def __init__(self, view, conds: str, fields=None, methods=None):
+    def __init__(self, view, conds: str, fields=None, methods=None, kinds=None):
         self.fn = view.node
         self.C = conds
         self.bound = {}
+        # how the pairs entering the list hold their parameters: {'list' | 'scalar' | '?': an example}; not given: the
+        # range bounds are known to be pushed as scalars
+        self.kinds = {'scalar': 'a range bound'} if kinds is None else kinds
         self.fields = fields or {}  # component names of pair classes: {'sql': 0, 'params': 1}
         self.methods = methods or {}  # one-expression methods / properties of pair classes: {'flat': (False, <expr>)}
 
@@ -1670,8 +1712,14 @@ class _Flatten:
         if inner == 'eL':
             return 'flat'
         if inner == 'e2':
-            return 'bad', 'each parameter entry is iterated as if it were a list, but range bounds are pushed as scalars'
+            return self.as_lists('each parameter entry is iterated as if it were a list')
         return None
+
+    def as_lists(self, what):
+        """the parameter entries are used as lists: right when every pair holds a list, wrong when one holds a scalar"""
+        if 'scalar' in self.kinds:
+            return 'bad', f'{what}, but {self.kinds["scalar"]} is pushed as a scalar'
+        return 'flat' if set(self.kinds) == {'list'} else None
 
     def accumulated(self, name, depth):
         """a local initialised to an empty list and filled inside one loop over the pairs"""
@@ -1725,7 +1773,7 @@ class _Flatten:
             if tag == 'eL':
                 return 'flat'
             if tag == 'e2':
-                return 'bad', 'each parameter entry is extended as if it were a list, but range bounds are pushed as scalars'
+                return self.as_lists('each parameter entry is extended as if it were a list')
             return None
         if isinstance(u, ast.If) and len(real_body(u.body)) == 1 and len(real_body(u.orelse)) == 1:
             t, a, b = u.test, real_body(u.body)[0], real_body(u.orelse)[0]
@@ -1792,7 +1840,7 @@ class _Flatten:
                 if v == 'listified':
                     return 'flat'
                 if v == 'seconds':
-                    return 'bad', 'the parameter entries are chained as if each were a list, but range bounds are pushed as scalars'
+                    return self.as_lists('the parameter entries are chained as if each were a list')
             return None
         return None
 
@@ -1811,6 +1859,103 @@ def _text_constant(fi, e, depth=0) -> str:
     return ''.join(_text_constant(fi, ch, depth) for ch in ast.iter_child_nodes(e))
 
 
+def _argument_env(callee, c, caller):
+    """{parameter: the caller's argument expression (locals of the caller followed)} for call c of callee, for the
+    parameters the callee never rebinds; {} when the call cannot be matched to the signature"""
+    a = callee.node.args
+    if a.vararg or a.kwarg or any(isinstance(x, ast.Starred) for x in c.args) or any(k.arg is None for k in c.keywords):
+        return {}
+    ps = [x.arg for x in a.posonlyargs + a.args]
+    if callee.cls is not None and ps[:1] in (['self'], ['cls']) and isinstance(c.func, ast.Attribute):
+        ps = ps[1:]
+    if len(c.args) > len(ps):
+        return {}
+    given = dict(zip(ps, c.args))
+    for k in c.keywords:
+        if k.arg in given or k.arg not in ps + [x.arg for x in a.kwonlyargs]:
+            return {}
+        given[k.arg] = k.value
+    return {p_: _resolve(caller, v) for p_, v in given.items() if not local_defs(callee.node, p_)}
+
+
+def _sole_parameter(fi, e):
+    """the parameters of a pair, locals followed; a group of exactly one (`[x]`, `(x,)`, `list((x,))`) is that one"""
+    e = _resolve(fi, e)
+    for _ in range(3):
+        if isinstance(e, ast.Call) and call_name(e) in ('list', 'tuple') and len(e.args) == 1 and not e.keywords:
+            e = _resolve(fi, e.args[0])
+        elif isinstance(e, (ast.List, ast.Tuple)) and len(e.elts) == 1 and not isinstance(e.elts[0], ast.Starred):
+            return _resolve(fi, e.elts[0])
+        else:
+            break
+    return e
+
+
+def _param_kind(fi, e, scalars, depth=0) -> str:
+    """how the second component of a (text, parameters) pair holds its values: 'list' (a list of them), 'scalar' (the one
+    value itself) or '?'"""
+    e = _resolve(fi, e)
+    if depth > 4:
+        return '?'
+    if isinstance(e, (ast.List, ast.ListComp)):
+        return 'list'
+    if isinstance(e, ast.Call) and call_name(e) in ('list', 'sorted') and len(e.args) <= 1:
+        return 'list'
+    if isinstance(e, ast.Call) and call_name(e) in ('int', 'float', 'str', 'round', 'abs'):
+        return 'scalar'
+    if isinstance(e, ast.Call) and isinstance(e.func, ast.Attribute) and e.func.attr == 'copy' and not e.args:
+        return _param_kind(fi, e.func.value, scalars, depth + 1)
+    if isinstance(e, ast.Subscript) and isinstance(e.slice, ast.Slice):
+        return _param_kind(fi, e.value, scalars, depth + 1)
+    if isinstance(e, ast.BinOp) and isinstance(e.op, (ast.Add, ast.Mult)):
+        ks = {_param_kind(fi, e.left, scalars, depth + 1), _param_kind(fi, e.right, scalars, depth + 1)}
+        return 'list' if 'list' in ks and isinstance(e.op, ast.Add) or ks == {'list', 'scalar'} else '?'
+    if isinstance(e, ast.IfExp):
+        ks = {_param_kind(fi, e.body, scalars, depth + 1), _param_kind(fi, e.orelse, scalars, depth + 1)}
+        return ks.pop() if len(ks) == 1 else '?'
+    if isinstance(e, ast.Constant) and isinstance(e.value, (int, float, str)):
+        return 'scalar'
+    if isinstance(e, ast.Attribute) and norm(e.value) == 'self' and fi.cls is not None:
+        if e.attr in scalars:
+            return 'scalar'
+        ann = fi.cls.all_fields().get(e.attr)
+        if ann is not None and 'list' in norm(ann):
+            return 'list'       # `str | list[str] | None`, a list once the filter is normalised (R5)
+    return '?'
+
+
+def _pair_component(prog, fi, e, fields):
+    """what an expression that reads one component of a (text, parameters) pair denotes: `n`, bound by the unpacking
+    `.., n, .. = <pair>` that reaches the use, `n[<0 | 1>]`, or `n.<field>` of a pair class.  ('filter', i) when the
+    pair is what Filter.to_sql returned, the component's expression when the pair is a display; e itself when it
+    is not such a read; ('?', i) when the pair is something else"""
+    src = None
+    if isinstance(e, ast.Name):
+        src = tuple_def_component(fi.node, e.id)
+        if src is None and getattr(e, '_parent', None) is not None and local_defs(fi.node, e.id):
+            src = _reaching_def(fi.node, e, component=True)
+            if src is None and _resolve(fi, e) is e:
+                return '?', -1              # a loop variable, a name bound in several places: not followed
+        if src is None:
+            return e
+    elif isinstance(e, ast.Attribute) and isinstance(e.value, ast.Name) and e.attr in fields \
+            and local_defs(fi.node, e.value.id):
+        src = e.value, fields[e.attr]
+    elif isinstance(e, ast.Subscript) and isinstance(e.value, ast.Name) and const_value(e.slice) in (0, 1) \
+            and local_defs(fi.node, e.value.id):
+        src = e.value, const_value(e.slice)
+    if src is None:
+        return e
+    pair, i = _resolve(fi, src[0]), src[1]
+    if isinstance(pair, ast.Tuple) and len(pair.elts) == 2 and i < 2 and not any(isinstance(x, ast.Starred) for x in pair.elts):
+        return pair.elts[i]
+    if isinstance(pair, ast.Call):
+        callee = resolve_call(prog, fi, pair)
+        if callee is not None and callee.module is prog.module(F) and callee.qualname == 'Filter.to_sql':
+            return 'filter', i
+    return '?', i
+
+
 def rule_placeholders(ctx):
     prog = ctx.prog
     fm = prog.module(F)
@@ -1822,32 +1967,89 @@ def rule_placeholders(ctx):
     pfields = _pair_fields(prog, fm)
     pmeths = _pair_methods(prog, fm)
     # condition builders: the other methods of Filter that return (text, parameters) pairs
+    # ... and the module-level functions of the filter module that to_sql reaches and that return such pairs
+    # (`_membership(column, values)` called once per IN-list attribute)
     generic = {}
-    for m in fcls.methods.values():
-        if m is ts or m.qualname == ts.qualname:
+    single = {}
+    helpers = [f for f in closure(prog, [ts]) if f.module is fm and f.cls is None and '.<locals>.' not in f.qualname]
+    for m in list(fcls.methods.values()) + sorted(helpers, key=lambda f: f.qualname):
+        if m is ts or m.qualname == ts.qualname or m.qualname in generic:
             continue
         v = _view(prog, m)
         pairs = _pairs_into(v)
         if pairs:
             generic[m.qualname] = (m, v, pairs)
+        elif _pairs_into(v, single=True):
+            # returns one pair (or None): a builder where its result is put into a list of conditions (found below)
+            single[m.qualname] = (m, v, _pairs_into(v, single=True))
     # the list of pairs in to_sql: the local that receives the builders' results / pushed pairs.  A builder that
     # to_sql calls with literal arguments (`self._region_condition(table, 'airport')`, also from an unrolled loop over a
     # literal table) is read once per argument tuple, with the literal in the parameter's place: three calls of one
     # parametrised method are three builders, exactly as three methods are
+    # The result of a builder also arrives when it comes through another function of the filter module that returns
+    # it (`self._spatial_conditions(prefix)` returning the sum of the four region builders' lists), or through another
+    # local list of to_sql that is added to / re-wrapped into this one (`[Condition(s, list(p)) for s, p in spatial]`).
     builders = {}
     into = {}
-    for name, e in _list_inflows(tv):
+    returned = {}
+    calls = {}
+
+    def taken_in(view, e, depth=0):
+        """labels of the builders whose result the expression e of `view` takes in"""
+        out = set()
         for c in [x for x in ast.walk(e) if isinstance(x, ast.Call)]:
-            callee = resolve_call(prog, tv, c)
-            if callee is not None and callee.qualname in generic:
+            callee = resolve_call(prog, view, c)
+            if callee is None or callee.module is not fm or callee.qualname == ts.qualname:
+                continue
+            if callee.qualname in single and callee.qualname not in generic:
+                generic[callee.qualname] = single[callee.qualname]
+            if callee.qualname in generic:
                 spec = _literal_args(callee, c)
                 label = callee.qualname + ('[' + ', '.join(f'{k}={v.value!r}' for k, v in sorted(spec.items())) + ']' if spec else '')
                 if label not in builders:
                     v = _view(prog, generic[callee.qualname][0], spec) if spec else generic[callee.qualname][1]
-                    builders[label] = (v, _pairs_into(v))
-                into.setdefault(name, set()).add(label)
+                    builders[label] = (v, _pairs_into(v, single=callee.qualname in single))
+                calls.setdefault(label, []).append((view, c, callee))
+                out.add(label)
+            if depth < 4 and '.<locals>.' not in callee.qualname:
+                out |= handed_on(callee, depth + 1)
+        return out
+
+    def handed_on(g, depth):
+        """labels of the builders whose result function g returns as (part of) its own"""
+        if g.qualname not in returned:
+            returned[g.qualname] = set()          # (recursion: nothing new on the way round)
+            v = _view(prog, g)
+            out, names = set(), set()
+            for r in walk_no_nested(v.node):
+                if isinstance(r, ast.Return) and r.value is not None:
+                    out |= taken_in(v, r.value, depth)
+                    names |= {x.id for x in ast.walk(r.value) if isinstance(x, ast.Name)}
+            for name, e in _list_inflows(v):
+                if name in names:
+                    out |= taken_in(v, e, depth)
+            returned[g.qualname] = out
+        return returned[g.qualname]
+
+    mentions = {}
+    for name, e in _list_inflows(tv):
+        got = taken_in(tv, e)
+        if got:
+            into.setdefault(name, set()).update(got)
+        mentions.setdefault(name, set()).update(x.id for x in ast.walk(e) if isinstance(x, ast.Name) and isinstance(x.ctx, ast.Load))
+    for _ in range(len(mentions)):
+        grew = False
+        for name, ms in mentions.items():
+            for m_ in ms:
+                if m_ != name and into.get(m_) and not into[m_] <= into.get(name, set()):
+                    into.setdefault(name, set()).update(into[m_])
+                    grew = True
+        if not grew:
+            break
     for q, (m, v, pairs) in generic.items():
-        if not any(lb == q or lb.startswith(q + '[') for lb in builders):
+        # (a Filter method returning a list of pairs is a builder whether or not to_sql uses it - its conditions may have
+        # been forgotten; a module-level function is one when its result is put into a list of conditions somewhere)
+        if not any(lb == q or lb.startswith(q + '[') for lb in builders) and m.cls is not None and q not in single:
             builders[q] = (v, pairs)
     ctx.floor('C14-R3/builders', len(builders), 4, 'condition builders of Filter (methods returning (text, parameters) pairs, '
               'counted once per tuple of literal arguments to_sql calls them with)')
@@ -1901,27 +2103,46 @@ def rule_placeholders(ctx):
                f'placeholders {dict(+qc)} = parameters {dict(+pc)}' if ok else
                f'{dict(+qc)} placeholders but {dict(+pc)} parameters: the statement cannot bind '
                '(or binds values to the wrong placeholders)', line=t.lineno)
+    # which value goes with which text: a builder that receives them as arguments (`_comparison(column, op, value)`, one
+    # call per bound) is read once per call, with the caller's arguments in the parameters' places
+    placed = [(tv, t.elts[0], t.elts[1], tv, t) for t in _pairs_into(tv, {conds})]
+    for label, (v, ps) in builders.items():
+        for t in ps:
+            envs = [(cv, _argument_env(callee, c, cv)) for cv, c, callee in calls.get(label, [])]
+            envs = [(cv, env) for cv, env in envs if env]
+            for cv, env in envs:
+                t2 = _Fold().visit(_clone(t, env))
+                placed.append((cv, t2.elts[0], t2.elts[1], v, t))
+            if not envs:
+                placed.append((v, t.elts[0], t.elts[1], v, t))
+    for fi, text, params, at, t in placed:
         # a scalar bound min_<c> / max_<c> constrains column <c> from the right side
-        pr = _resolve(fi, params)
+        pr = _sole_parameter(fi, params)
         if isinstance(pr, ast.Attribute) and norm(pr.value) == 'self' and pr.attr in numeric:
             attr = pr.attr
             col = re.search(r'(\w+)\s*(<=|>=|<|>|=|!=|<>)\s*\?', _text_constant(fi, text))
             okr = col is not None and ((attr.startswith('min_') and col.group(2) == '>=') or
                                        (attr.startswith('max_') and col.group(2) == '<=')) and attr[4:] == col.group(1)
-            ctx.ob('C14-R3', fi, f'{attr} ↔ {col.group(1) if col else "?"} {col.group(2) if col else ""}', bool(okr),
+            ctx.ob('C14-R3', at, f'{attr} ↔ {col.group(1) if col else "?"} {col.group(2) if col else ""}', bool(okr),
                    'min → >=, max → <= on the column of the same name' if okr else
                    'range bound compares the wrong column or in the wrong direction', line=t.lineno)
-    ctx.floor('C14-R3', n, 15, 'filter conditions')
+    ctx.floor('C14-R3', max(n, len(placed)), 15, 'filter conditions')
     # every numeric bound of the filter is turned into a condition
-    pushed = {norm(_resolve(fi, t.elts[1])) for fi, t in sites}
+    pushed = {norm(_sole_parameter(fi, params)) for fi, _, params, _, _ in placed}
     for a in sorted(numeric):
         ok = f'self.{a}' in pushed
         ctx.ob('C14-R3', tv, f'bound {a} becomes a condition', ok, 'pushed with its own placeholder' if ok else
                f'no condition carries self.{a}: the bound is ignored', nontrivial=False)
     # flatten step in to_sql
+    # (whether each pair holds its parameters as a list or as the one value itself decides what the step has to do)
     general = 0
+    kinds = {}
+    for fi, t in sites:
+        k = _param_kind(fi, t.elts[1], numeric)
+        kinds.setdefault(k, ('the range bound ' if k == 'scalar' and norm(_resolve(fi, t.elts[1])).startswith('self.') else '')
+                         + f'`{norm(_resolve(fi, t.elts[1]))[:40]}`')
     for r, v in rets:
-        a, b = _Flatten(tv, conds, pfields, pmeths).val(v.elts[0]), _Flatten(tv, conds, pfields, pmeths).val(v.elts[1])
+        a, b = _Flatten(tv, conds, pfields, pmeths, kinds).val(v.elts[0]), _Flatten(tv, conds, pfields, pmeths, kinds).val(v.elts[1])
         what = f'return {norm(v)[:90]}'
         if a == ('str', '') and b == 'empty':
             facts = [f for t, pol, _ in guards_of(r) for at, p in conjuncts(t, pol) for f in [_emptiness_fact(at, p, conds)]]
@@ -1980,26 +2201,37 @@ def rule_placeholders(ctx):
             und = False
             for x in blk:
                 if isinstance(x, ast.AugAssign):
-                    pc = qcnt.p(fq, x.value)
+                    arg = _pair_component(prog, fq, x.value, pfields)
+                    if isinstance(arg, tuple) and arg[0] == 'filter' and isinstance(x.op, ast.Add):
+                        p += Counter({'filter' if arg[1] == 1 else "the filter's text, as parameters": 1})
+                        continue
+                    pc = None if isinstance(arg, tuple) or not isinstance(x.op, ast.Add) else qcnt.p(fq, arg)
                     p += pc if pc else Counter()
                     und = und or pc is None
                     continue
                 c = x.value
                 cn = call_name(c)
+                if len(c.args) != 1 or c.keywords or isinstance(c.args[0], ast.Starred):
+                    und = True
+                    continue
+                arg = _pair_component(prog, fq, c.args[0], pfields)
                 if cn.endswith('_conditions.append'):
-                    if isinstance(c.args[0], ast.Name) and c.args[0].id == 'cond':
-                        q += Counter({'filter': 1})
+                    if isinstance(arg, tuple) and arg[0] == 'filter':
+                        # the text Filter.to_sql returned ...
+                        q += Counter({'filter' if arg[1] == 0 else "the filter's parameters, as text": 1})
                     else:
-                        qc = qcnt.q(fq, c.args[0])
+                        qc = None if isinstance(arg, tuple) else qcnt.q(fq, arg)
                         und = und or qc is None
                         q += qc or Counter()
                 elif cn.endswith('_params.append'):
+                    und = und or isinstance(arg, tuple)
                     p += Counter({'1': 1})
                 elif cn.endswith('_params.extend'):
-                    if norm(c.args[0]) == 'p':
-                        p += Counter({'filter': 1})
+                    if isinstance(arg, tuple) and arg[0] == 'filter':
+                        # ... and the parameters it returned with it (R3 above: as many)
+                        p += Counter({'filter' if arg[1] == 1 else "the filter's text, as parameters": 1})
                     else:
-                        pc = qcnt.p(fq, c.args[0])
+                        pc = None if isinstance(arg, tuple) else qcnt.p(fq, arg)
                         und = und or pc is None
                         p += pc or Counter()
             if und:
@@ -2158,6 +2390,12 @@ def _c14_interp(prog):
     MATH_CONSTS = {'pi', 'tau', 'inf', 'nan', 'e'}
     OPNODES = (ast.BinOp, ast.Compare, ast.UnaryOp, ast.BoolOp, ast.IfExp, ast.Call, ast.JoinedStr)
 
+    class _Drained(list):
+        """what a generator function yields, in order; like the generator object it stands for it is true even when
+        empty"""
+        def __bool__(self):
+            return True
+
     class QueryInterp(_Interp):
         def __init__(self, prog):
             super().__init__(prog)
@@ -2168,6 +2406,8 @@ def _c14_interp(prog):
             self._nt = {}         # id(ClassInfo) -> the tuple type standing for a NamedTuple class
             self._nt_types = {}   # that type (or one made by collections.namedtuple) -> ClassInfo | None
             self._depth = 0
+            self._is_gen = {}     # id(function node) -> (is a generator function, changes only its own locals)
+            self._yields = []     # values yielded so far by the generator functions being run, innermost last
 
         def _method_node(self, ci, name):
             for c in ci.mro():
@@ -2432,6 +2672,14 @@ def _c14_interp(prog):
             return super().lookup(name, fi, scopes)
 
         def eval(self, e, fi, sc):
+            if isinstance(e, (ast.Yield, ast.YieldFrom)):
+                if not self._yields:
+                    raise _Undecidable('yield outside a generator function call')
+                if isinstance(e, ast.Yield):
+                    self._yields[-1].append(self.eval(e.value, fi, sc) if e.value is not None else None)
+                else:
+                    self._yields[-1].extend(self.iterate(self.eval(e.value, fi, sc)))
+                return None
             if isinstance(e, OPNODES):
                 self.nodes.append((fi.module, e))
                 try:
@@ -2485,6 +2733,34 @@ def _c14_interp(prog):
             return super().eval(e, fi, sc)
 
         def call_fn(self, fn, args, kwargs):
+            """a generator function is run to its end at the call and its values handed out as a sequence (the model of
+            generator expressions too): right when what it does in between cannot be seen by its consumer, i.e. when it
+            changes nothing but its own locals"""
+            key = id(fn.node)
+            if key not in self._is_gen:
+                ys = [x for x in walk_no_nested(fn.node) if isinstance(x, (ast.Yield, ast.YieldFrom))] \
+                    if isinstance(fn.node, (ast.FunctionDef, ast.AsyncFunctionDef)) else []
+                own = {n for x in walk_no_nested(fn.node) if isinstance(x, (ast.Assign, ast.AnnAssign, ast.AugAssign, ast.For))
+                       for t in (x.targets if isinstance(x, ast.Assign) else [x.target]) for n in assigned_names(t)}
+                effects = [x for x in walk_no_nested(fn.node)
+                           if (isinstance(x, (ast.Attribute, ast.Subscript)) and isinstance(x.ctx, (ast.Store, ast.Del)) and _root_name(x) not in own)
+                           or isinstance(x, (ast.Global, ast.Nonlocal, ast.Await))
+                           or (isinstance(x, ast.Call) and isinstance(x.func, ast.Attribute) and x.func.attr in MUTATING_METHODS
+                               and _root_name(x.func.value) not in own)]
+                self._is_gen[key] = (bool(ys), not effects)
+            gen, quiet = self._is_gen[key]
+            if not gen:
+                return self._call_fn(fn, args, kwargs)
+            if not quiet:
+                raise _Undecidable(f'generator function {getattr(fn.node, "name", "?")} changes objects its consumer may see')
+            self._yields.append(_Drained())
+            try:
+                self._call_fn(fn, args, kwargs)
+                return self._yields[-1]
+            finally:
+                self._yields.pop()
+
+        def _call_fn(self, fn, args, kwargs):
             a = fn.node.args
             if not (a.vararg or a.kwarg):
                 return super().call_fn(fn, args, kwargs)
@@ -2973,13 +3249,31 @@ def _epoch(d, days=0) -> int:
     return int((_dt.datetime(d.year, d.month, d.day, tzinfo=_dt.timezone.utc) + _dt.timedelta(days=days)).timestamp())
 
 
-def _documented_common(cfg, filt_conj) -> Counter:
+def _documented_common(cfg, filt_conj, labels=None) -> Counter:
+    """the documented WHERE conjuncts of the settings every query class has; labels (if given) receives what each
+    conjunct stands for, for the message"""
     out = Counter(filt_conj)
+    labels = {} if labels is None else labels
+    for k in filt_conj:
+        labels.setdefault(k, 'the filter condition')
     if cfg.get('start_date') is not None:
-        out[(_norm_sql('s.departure_timestamp >= ?'), (_epoch(cfg['start_date']),))] += 1
+        k = (_norm_sql('s.departure_timestamp >= ?'), (_epoch(cfg['start_date']),))
+        out[k] += 1
+        labels[k] = 'the start-date condition (inclusive: from 00:00 UTC of that day)'
     if cfg.get('end_date') is not None:
-        out[(_norm_sql('s.departure_timestamp < ?'), (_epoch(cfg['end_date'], 1),))] += 1
+        k = (_norm_sql('s.departure_timestamp < ?'), (_epoch(cfg['end_date'], 1),))
+        out[k] += 1
+        labels[k] = 'the end-date condition (inclusive: strictly before 00:00 UTC of the following day)'
     return out
+
+
+def _conjunct_diff(want: Counter, got: Counter | None, labels: dict, sql: str, params: list) -> str:
+    """what the WHERE clause lacks and what it has instead, for the message"""
+    if got is None:
+        return f'{sql.count("?")} placeholders but {len(params)} parameters'
+    miss, extra = want - got, got - want
+    return '; '.join([f'missing {labels.get((c, p), "condition")} `{c}` <- {list(p)}' for c, p in miss][:2] +
+                     [f'unexpected `{c}` <- {list(p)}' for c, p in extra][:2])
 
 
 def _same_on(a: str, b: str) -> bool:
@@ -3096,22 +3390,23 @@ def rule_queries_evaluated(ctx):
                 continue
             sql, params = a
             cl = _clauses(_norm_sql(sql))
-            want = _documented_common(cfg, filter_conj(filt))
+            labels = {}
+            want = _documented_common(cfg, filter_conj(filt), labels)
             if sample is not None:
                 want[(_norm_sql(_SAMPLE), (sample,))] += 1
+                labels[(_norm_sql(_SAMPLE), (sample,))] = 'the sampling condition'
             if nth is not None and nth > 1:
                 if start is None:
-                    want[(_norm_sql('(s.day - (select min(day) from schedules)) % ? = 0'), (nth,))] += 1
+                    k_ = (_norm_sql('(s.day - (select min(day) from schedules)) % ? = 0'), (nth,))
                 else:
-                    want[(_norm_sql('(s.day - ?) % ? = 0'), ((start - _dt.date(1970, 1, 1)).days, nth))] += 1
+                    k_ = (_norm_sql('(s.day - ?) % ? = 0'), ((start - _dt.date(1970, 1, 1)).days, nth))
+                want[k_] += 1
+                labels[k_] = 'the every-n-th-day condition'
             got = _bound_conjuncts(cl.get('where', ''), params)
             ok = got == want
             why = 'each condition once, with its own parameters'
-            if got is None:
-                why = f'with {show(cfg)}: {sql.count("?")} placeholders but {len(params)} parameters'
-            elif not ok:
-                miss, extra = want - got, got - want
-                why = f'with {show(cfg)}: ' + '; '.join([f'missing `{c}` <- {list(p)}' for c, p in miss][:2] + [f'unexpected `{c}` <- {list(p)}' for c, p in extra][:2])
+            if not ok:
+                why = f'with {show(cfg)}: ' + _conjunct_diff(want, got, labels, sql, params)
             verdict('C14-R6', qs, 'WHERE: start/end dates inclusive (UTC midnights), sampling, every-nth-day, filter — each with its own parameters', ok, why[:600])
             cols_seen = cl.get('select', '')
             ok = cl.get('select') == _norm_sql(_SELECT_LIST)
@@ -3144,12 +3439,14 @@ def rule_queries_evaluated(ctx):
                 verdict('C14-R4', cq, 'count query counts instances with the same joins', False, f'{show(cfg)} is refused' if a == 'ValueError' else f'with {show(cfg)}: {a}')
                 continue
             cl = _clauses(_norm_sql(a[0]))
-            want = _documented_common(cfg, filter_conj(filt))
+            labels = {}
+            want = _documented_common(cfg, filter_conj(filt), labels)
             got = _bound_conjuncts(cl.get('where', ''), a[1])
             frm = cl.get('from', '')
             ok = got == want and cl.get('select') == _norm_sql('count(s.id)') and (_same_on(frm, _norm_sql(_JOINS)) or (not want and frm == _norm_sql('schedules s'))) \
                 and set(cl) <= {'select', 'from', 'where'}
             verdict('C14-R4', cq, 'count query counts instances with the same joins', ok, 'COUNT(s.id) over the same joins and conditions' if ok else
+                    f'with {show(cfg)} the WHERE clause is not the documented one: {_conjunct_diff(want, got, labels, a[0], a[1])}'[:600] if got != want else
                     f'with {show(cfg)}: `{_norm_sql(a[0])[:220]}` <- {a[1]}')
         # ---- FrequentFlightQuery
         for filt, start, end, limit in itertools.product(filters, (None, d1), (None, d2), (None, 5)):
@@ -3167,7 +3464,8 @@ def rule_queries_evaluated(ctx):
             m_ = re.match(r'^with counts as \( (.*) \) select (.*)$', s_)
             inner = _clauses(m_.group(1)) if m_ else {}
             outer = _clauses('select ' + m_.group(2)) if m_ else {}
-            want = _documented_common(cfg, filter_conj(filt))
+            labels = {}
+            want = _documented_common(cfg, filter_conj(filt), labels)
             got = _bound_conjuncts(inner.get('where', ''), a[1])
             lim = str(limit) if limit is not None else '20'
             ok = bool(m_) and got == want and inner.get('select') == _norm_sql('count(s.id) as nflights, f.od_pair as od_pair') \
@@ -3177,6 +3475,8 @@ def rule_queries_evaluated(ctx):
                 and set(inner) <= {'select', 'from', 'where', 'group by'} and set(outer) <= {'select', 'from', 'order by', 'limit'}
             verdict('C14-R4', ff, 'frequent routes: count per direction-independent pair, descending', ok,
                     'instances counted per od_pair under the same conditions, ORDER BY nflights DESC, LIMIT n (default 20)' if ok else
+                    f'with {show(cfg)} the WHERE clause of the counting sub-query is not the documented one: '
+                    f'{_conjunct_diff(want, got, labels, m_.group(1), a[1])}'[:600] if m_ and got != want else
                     f'with {show(cfg)}: `{s_[:260]}` <- {a[1]}')
         a, _ = run('FrequentFlightQuery', {'limit': 0})
         verdict('C14-R6', ff, 'frequent routes: limit < 1 refused', a == 'ValueError', 'ValueError' if a == 'ValueError' else 'limit=0 is accepted')
@@ -3390,7 +3690,9 @@ def rule_is_set(ctx):
                     a = _resolve(view, a)
                     if isinstance(a, ast.Attribute) and norm(a.value) == 'self' and a.attr in numeric \
                             and i + off < len(callee.params):
-                        tainted.setdefault(callee.qualname, {})[callee.params[i + off]] = a.attr
+                        held = tainted.setdefault(callee.qualname, {})
+                        got = set(held.get(callee.params[i + off], '').split(' / ')) - {''} | {a.attr}
+                        held[callee.params[i + off]] = ' / '.join(sorted(got))        # every field the parameter receives
             scopes = [(view, {f'self.{x}': x for x in numeric})]
             for q, prm in tainted.items():
                 callee = fi.module.functions.get(q)
